@@ -9,15 +9,20 @@ import programs as P
 PID = "C17"
 THEOREM_FILE = os.path.join(C.COQ, "theories", "props", "C17_Props.v")
 
+# every kind in several forms: literal operands, operands bound in an earlier statement, and operands that are the
+# result of calling a function defined in an earlier statement (the prelude below)
 FAULTS = {
-    "unknown_name": "undefined_name_zz",
-    "type_mismatch": '(1 + "s")',
-    "missing_field": "{a = 1}.nope",
-    "missing_index": "[1, 2].7",
-    "unhandled_select": 'select ("zz") => {a = 1}',
-    "failed_cast": 'int("x12")',
-    "fail_expr": '(fail "boom")',
+    "unknown_name": ["undefined_name_zz", "(iv + undefined_name_zz)", "strf(undefined_name_zz)", "tv.a + undefined_zz.b"],
+    "type_mismatch": ['(1 + "s")', "(1 + strf(1))", "(strf(1) + 1)", "(iv + sv)", "(sv + iv)", "not strf(1)", "(strf(1) && true)",
+                      "(iv == sv)", "(1 < sv)", "iv(1)", "([1] + intf(1))", "(1 in iv)", 'tv{a = "s"}', "(intf(2) * strf(1))"],
+    "missing_field": ["{a = 1}.nope", "tupf(1).nope", "tv.nope", "tv.(sv)", "tupf(1).a.b"],
+    "missing_index": ["[1, 2].7", "lv.7", "lstf(1).5", "lv.(iv)"],
+    "unhandled_select": ['select ("zz") => {a = 1}', "select (strf(1)) => {a = 1}", "select (sv) => {a = 1, b = 2}"],
+    "failed_cast": ['int("x12")', "int(strf(1))", "int(sv)", "float(sv)", "float(strf(1))"],
+    "fail_expr": ['(fail "boom")', "(fail sv)", '(fail "x @" % (iv))', "(fail strf(1))"],
 }
+PRELUDE = ['let strf = func (x) => "s";', "let intf = func (x) => x + 1;", "let tupf = func (x) => {a = x};",
+           "let lstf = func (x) => [x, x];", 'let sv = "x12";', "let iv = 7;", "let tv = {a = 1};", "let lv = [1, 2];"]
 NESTINGS = ["top", "tuple_field", "list_elem", "call_arg", "select_arm", "func_body"]
 SYNTAX = [("=", ""), (";", ""), ("(", ""), (")", ""), ("{", ""), ("}", ")"), ("=", "=="), (",", ";")]
 
@@ -69,7 +74,7 @@ def filler(rng, idx):
 def fault_statements(kind, nesting, tag):
     """-> (statements defining the fault, index of the statement whose span must contain the primary position,
            index of the calling statement for func_body or None)"""
-    F = FAULTS[kind]
+    F = kind
     if nesting == "top":
         return ["let bad%s = %s;" % (tag, F)], 0, None
     if nesting == "tuple_field":
@@ -89,13 +94,15 @@ def build_program(rng, n, k, fault):
     """n filler statements with the fault statements inserted at position k; returns (text, spans, fault_idx, call_idx)"""
     stmts = [filler(rng, i) for i in range(n)]
     fstmts, fi, ci = fault
-    stmts = stmts[:k] + fstmts + stmts[k:]
-    fault_idx = k + fi
-    call_idx = None if ci is None else k + ci
+    stmts = PRELUDE + stmts[:k] + fstmts + stmts[k:]
+    fault_idx = len(PRELUDE) + k + fi
+    call_idx = None if ci is None else len(PRELUDE) + k + ci
     lines = []
     spans = []
     for s in stmts:
         t = multiline(s, rng)
+        if s in PRELUDE and "=>" in s:
+            t = s.replace("=> ", "=>\n  ")     # the body of a helper function sits on a line of its own
         if rng.random() < 0.3:
             lines.append("// a comment line")
         start = len(lines) + 1
@@ -140,22 +147,23 @@ def run(tier, seed):
         raise RuntimeError("cargo build of /repo failed:\n" + msg[-2000:])
     rng = ck.rng
     cases = []
-    reps = 2 if tier == "quick" else 12
+    reps = 1 if tier == "quick" else 6
     tagn = 0
     for kind in FAULTS:
+      for form in FAULTS[kind]:
         for nesting in NESTINGS:
             for _ in range(reps):
                 n = rng.randint(2, 9)
-                for k in ([0, n // 2, n] if tier == "quick" else range(0, n + 1)):
+                for k in ([rng.choice([0, n // 2, n])] if tier == "quick" else range(0, n + 1)):
                     tagn += 1
-                    fault = fault_statements(kind, nesting, str(tagn))
+                    fault = fault_statements(form, nesting, str(tagn))
                     st = rng.getstate()
                     text, spans, fi, ci = build_program(rng, n, k, fault)
-                    cases.append({"kind": kind, "nesting": nesting, "text": text, "spans": spans, "fault": fi, "call": ci, "extra": 0})
+                    cases.append({"kind": kind, "form": form, "nesting": nesting, "text": text, "spans": spans, "fault": fi, "call": ci, "extra": 0})
                     # the same program with 1..3 unrelated statements inserted before: positions move by the lines added
                     extra = rng.randint(1, 3)
                     pre = "".join("let pre%d_%d = %d;\n" % (tagn, j, j) for j in range(extra))
-                    cases.append({"kind": kind, "nesting": nesting, "text": pre + text,
+                    cases.append({"kind": kind, "form": form, "nesting": nesting, "text": pre + text,
                                   "spans": [(a + extra, bb + extra) for a, bb in spans], "fault": fi, "call": ci, "extra": extra,
                                   "base": len(cases) - 1})
     # syntax faults: replace one token of a valid multi-statement program
@@ -182,19 +190,19 @@ def run(tier, seed):
         key = c["kind"] + "/" + c["nesting"].split(":")[0]
         stats[key] = stats.get(key, 0) + 1
         if "panic" in r or "crash" in r:
-            real.append({"source": c["text"], "why": "panic instead of a diagnostic: %r" % (r,), "kind": c["kind"], "nesting": c["nesting"]})
+            real.append({"source": c["text"], "why": "panic instead of a diagnostic: %r" % (r,), "kind": c["kind"], "form": c.get("form"), "nesting": c["nesting"]})
             continue
         if "ok" in r:
             if c["kind"] == "syntax":
                 continue        # the replacement happened to yield another valid program
-            real.append({"source": c["text"], "why": "the fault did not produce a diagnostic", "kind": c["kind"], "nesting": c["nesting"]})
+            real.append({"source": c["text"], "why": "the fault did not produce a diagnostic", "kind": c["kind"], "form": c.get("form"), "nesting": c["nesting"]})
             continue
         primary, via = positions(r["err"])
         c["primary"] = primary
         a, bb = c["spans"][c["fault"]]
         if primary is None:
             real.append({"source": c["text"], "why": "the diagnostic carries no position", "diagnostic": r["err"][-400:],
-                         "kind": c["kind"], "nesting": c["nesting"]})
+                         "kind": c["kind"], "form": c.get("form"), "nesting": c["nesting"]})
             continue
         inside = a <= primary[0] <= bb
         if c["kind"] == "syntax":
@@ -203,24 +211,24 @@ def run(tier, seed):
             inside = a <= primary[0] <= max(bb, nxt)
         if not inside:
             real.append({"source": c["text"], "why": "primary position line %d is outside the faulty statement (lines %d-%d)" % (primary[0], a, bb),
-                         "diagnostic": r["err"][-500:], "kind": c["kind"], "nesting": c["nesting"]})
+                         "diagnostic": r["err"][-500:], "kind": c["kind"], "form": c.get("form"), "nesting": c["nesting"]})
             continue
         if c["call"] is not None:
             ca, cb = c["spans"][c["call"]]
             if not any(ca <= v <= cb for v in via):
                 real.append({"source": c["text"], "why": "the calling statement (lines %d-%d) is not listed in the diagnostic" % (ca, cb),
-                             "diagnostic": r["err"][-500:], "kind": c["kind"], "nesting": c["nesting"]})
+                             "diagnostic": r["err"][-500:], "kind": c["kind"], "form": c.get("form"), "nesting": c["nesting"]})
                 continue
         if c["extra"]:
             base = cases[c["base"]]
             bp = base.get("primary")
             if bp is not None and (primary[0] - c["extra"], primary[1]) != bp:
                 real.append({"source": c["text"], "why": "position moved by something else than the %d lines added before: %r vs %r"
-                             % (c["extra"], bp, primary), "kind": c["kind"], "nesting": c["nesting"]})
+                             % (c["extra"], bp, primary), "kind": c["kind"], "form": c.get("form"), "nesting": c["nesting"]})
     cov["evaluations"] = len(cases)
     cov["distinct_nontrivial"] = len(set(c["text"] for c in cases))
     cov["rule"] = ("valid multi-line programs of 3..12 statements with exactly one fault (unknown name, run-time type mismatch, missing field, "
-                   "missing index, unhandled select case, failed cast, fail expression) at every statement position (quick: first/middle/last) "
+                   "missing index, unhandled select case, failed cast, fail expression) at every statement position (quick: one of first/middle/last per form), every kind in several forms (literal operand, operand bound earlier, operand returned by a function defined earlier) "
                    "and nesting position (top, tuple field, list element, call argument, select arm, function body called later), each also "
                    "with 1..3 statements inserted before; syntax faults by replacing one token; the span table comes from the generator")
     cov["generator_distribution"] = stats
